@@ -36,6 +36,9 @@ func checkC14(p *Prog, r *Report) {
 	}
 	respTrig := callbackTriggers(p, FN("FeatureLocal.responseMsgCallback"))
 	resTrig := callbackTriggers(p, FN("FeatureLocal.resultCallbacks"))
+	r.Rule("R5", "registration is never dropped silently: AddResultCallback stores its callback on every path; AddResponseCallback on every path that does not return an error")
+	registrationRule(p, r, "R5", "AddResultCallback", "FeatureLocal.resultCallbacks")
+	registrationRule(p, r, "R5", "AddResponseCallback", "FeatureLocal.responseMsgCallback")
 	r.Rule("R1", "in the response-callback trigger the look-up of the counter, the start of its callbacks and the deletion of the entry share one critical section; registration scans for the same callback and appends inside the same lock; result callbacks are started under that lock")
 	if len(respTrig) == 0 || len(resTrig) == 0 {
 		r.Undecided("R1", "anchor:triggers", "", fmt.Sprintf("%d response and %d result callback triggers found", len(respTrig), len(resTrig)))
@@ -249,4 +252,96 @@ func responseMessageFields(v ssa.Value) map[string]string {
 		}
 	}
 	return got
+}
+
+// registrationRule: a callback handed to a registration method is stored on
+// every path that does not report an error: no registration is dropped silently.
+func registrationRule(p *Prog, r *Report, rule string, method, role string) {
+	fli := p.LookupIface("api", "FeatureLocalInterface")
+	if fli == nil {
+		r.Undecided(rule, "anchor:api.FeatureLocalInterface", "", "interface not found")
+		return
+	}
+	fname := FN(role)
+	seen := map[*ssa.Function]bool{}
+	n := 0
+	for _, fn := range p.ImplsOf(fli, method) {
+		impl := fn
+		if isWrapper(fn) {
+			forEachCall(fn, func(site ssa.CallInstruction) {
+				if c := site.Common().StaticCallee(); c != nil && c.Name() == fn.Name() {
+					impl = c
+				}
+			})
+		}
+		if seen[impl] || impl.Blocks == nil {
+			continue
+		}
+		seen[impl] = true
+		n++
+		// insertion blocks: a store of an append result into the field, or a map update on the field whose value derives from the parameter
+		ins := map[*ssa.BasicBlock]bool{}
+		cbParam := impl.Params[len(impl.Params)-1]
+		taint := forwardTaint(cbParam)
+		for _, b := range impl.Blocks {
+			for _, i2 := range b.Instrs {
+				switch x := i2.(type) {
+				case *ssa.Store:
+					if fa, ok := x.Addr.(*ssa.FieldAddr); ok && fieldOfAddr(fa) != nil && fieldOfAddr(fa).Name() == fname && taint[x.Val] {
+						ins[b] = true
+					}
+				case *ssa.MapUpdate:
+					if strings.HasSuffix(Path(x.Map), "."+fname) && taint[x.Value] {
+						ins[b] = true
+					}
+				}
+			}
+		}
+		key := fmt.Sprintf("%s|stores-callback", FnName(impl))
+		if len(ins) == 0 {
+			r.Fail(rule, key, p.Pos(impl.Pos()), "the callback parameter is never stored into "+role)
+			continue
+		}
+		bypass := ""
+		seenB := map[*ssa.BasicBlock]bool{}
+		var dfs func(b *ssa.BasicBlock)
+		dfs = func(b *ssa.BasicBlock) {
+			if ins[b] || seenB[b] {
+				return
+			}
+			seenB[b] = true
+			if ret, ok := b.Instrs[len(b.Instrs)-1].(*ssa.Return); ok {
+				silent := true
+				if len(ret.Results) > 0 {
+					last := ret.Results[len(ret.Results)-1]
+					if c, isC := last.(*ssa.Const); !(isC && c.IsNil()) && errLike(last.Type()) {
+						silent = false // an error is reported
+					}
+					// defer-spilled result: look at the last store to the cell in this block
+					if u, ok := last.(*ssa.UnOp); ok {
+						if al, ok := u.X.(*ssa.Alloc); ok {
+							for _, i3 := range b.Instrs {
+								if st, ok := i3.(*ssa.Store); ok && st.Addr == ssa.Value(al) {
+									if c, isC := st.Val.(*ssa.Const); isC && c.IsNil() {
+										silent = true
+									} else {
+										silent = false
+									}
+								}
+							}
+						}
+					}
+				}
+				if silent {
+					bypass = p.InstrPos(ret)
+				}
+			}
+			for _, s := range b.Succs {
+				dfs(s)
+			}
+		}
+		dfs(impl.Blocks[0])
+		r.Check(rule, key, bypass == "", p.Pos(impl.Pos()), "every path that does not report an error stores the callback"+orStr(map[bool]string{true: "", false: "; the return at " + bypass + " is reached without storing it and without an error"}[bypass == ""], ""))
+	}
+	r.Floor(rule, "implementations of "+method, n, 1)
 }
